@@ -153,7 +153,7 @@ func init() {
 		}
 	}
 	checks["C14"] = func(tier string) int {
-		run := ev.NewRun("C14", tier, "model_checking")
+		run := newRun("C14", tier, "model_checking")
 		bound := 2
 		if tier == "thorough" {
 			bound = 3
